@@ -21,6 +21,23 @@ def elem_defines(tag, ctype):
     return [f'NV_ELEM={ctype}'] + ([] if tag == 'f64' else ['NV_ELEM_INT=1'])
 
 
+class LambdaFn(Fn):
+    """an optional lambda: a generic lambda that the current source never calls has no instantiated operator() -- absent too"""
+
+    def emit(self):
+        try:
+            return super().emit()
+        except ExtractionError as e:
+            if 'without an instantiated operator()' in str(e):
+                raise ExtractionError(f'{self.cname}: lambda not found (never instantiated)')
+            raise
+
+
+# iterator vocabulary on the modelled (pointer) iterators: std::distance / advance / prev / next
+ITER_CALLS = [(r'^distance\|', '({1} - {0})'), (r'^advance\|', '({0} += {1})'),
+              (r'^prev\|.*\|#1$', '({0} - 1)'), (r'^prev\|.*\|#2$', '({0} - ({1}))'),
+              (r'^next\|.*\|#1$', '({0} + 1)'), (r'^next\|.*\|#2$', '({0} + ({1}))')]
+
 # ----------------------------------------------------------------------------- histogram_t::mean
 T_ = r'(?:signed char|short|int|long|double)'
 ACC_CALLS = [
@@ -31,12 +48,12 @@ ACC_CALLS = [
     # (first, last, init of the sample type): partial sums in the sample type (exact)
     (r'^accumulate\|(' + T_ + r') \(\1 \*, \1 \*, \1\)', 'nv_accumulate_elem({0}, {1}, {2})'),
     (r'^accumulate\|', 'nv_accumulate_other()'),
-]
+] + ITER_CALLS
 
 
 def mean_fns(cxx):
     mean = Fn('hist_mean', TU, 'mean', flt=FLT, select=targs(cxx + ' *'), calls=ACC_CALLS)
-    op = Fn('mean_op', TU, 'mean', flt=FLT, select=targs(cxx + ' *'), lambda_index=0, optional=True)
+    op = LambdaFn('mean_op', TU, 'mean', flt=FLT, select=targs(cxx + ' *'), lambda_index=0, optional=True)
     return mean, op
 
 
